@@ -52,9 +52,11 @@ SPEC = {
         "the model runs both in one step; whole commands are interleaved (the index serialises transactions), a "
         "command's two transactions are not split by another session's",
         "named hypotheses of the _partial theorems, each with a proved counterexample: NoForward (STORE expands "
-        "$Forwarded/Forwarded), Spelling (-FLAGS and FLAGS-with-only-\\Deleted compare the spelling of stored flags), "
-        "NamedInSrc (MOVE of a message already expunged from the source), lit.gid = none (X-Pm-Gluon-Id of a live "
-        "message: C20), no failure of the update-queueing transaction (K-append-committed-then-error)",
+        "$Forwarded/Forwarded: K-forward-alias), lit.gid = none (X-Pm-Gluon-Id of a live message: C20), no failure of the "
+        "update-queueing transaction (K-second-tx-failure / K-append-committed-then-error). The former hypotheses Spelling "
+        "and NamedInSrc are gone since gluon 45f4598 (DELETE ... COLLATE NOCASE) and 7feeba5 / 971d4f3 (MOVE restricted to "
+        "the messages still in the source); their counterexamples are regression examples in Theorems/C03.lean and "
+        "corpus/C03/r8..r11",
         "flag names are ASCII (lower-casing by Char.toLower); Go map iteration order is the model's list order (no "
         "modelled result depends on it beyond the order of rows in message_flags_v2)",
         "bytes: the message store keeps the literal as given; rfc822.SetHeaderValueNoMemCopy (the X-Pm-Gluon-Id line) is "
@@ -65,9 +67,10 @@ SPEC = {
                    "argument (flag lists of any spelling, message lists of any length via chunk_faithful, source = "
                    "destination, destination already holding the message, stale views) and every index state satisfying "
                    "the invariant: if the model answers OK, abs of the new state is the reference operation on abs of the "
-                   "old one (append_ref_partial, store_ref_partial, expunge_ref, copy_ref, move_ref_partial), by induction "
+                   "old one (append_ref_partial, store_ref_partial, expunge_ref, copy_ref, move_ref), by induction "
                    "over arbitrary histories (C03_partial), and a command not answered OK changes nothing "
                    "(failed_no_effect_partial); each named hypothesis has a kernel-checked counterexample that the oracle "
-                   "replays on the real server (corpus/C03/d*.content).  The model is tied to the real server over TCP: "
+                   "replays on the real server (corpus/C03/d*.content); flag spellings are arbitrary (case-insensitive removal proved "
+                   "and exercised).  The model is tied to the real server over TCP: "
                    "random multi-session sequences and message lists on both sides of db.ChunkLimit and db.ChunkLimit/2.",
 }
